@@ -40,7 +40,7 @@ def run(chk: harness.Check):
         "into_simple_recipe a reference index of kind K is pushed only into the step list of kind K, the Step takes clones of the three step lists by kind, "
         "section lists are extended by the same-kind step lists, Section.title is the core section name, and the recipe's component vectors are maps over "
         "the same-named core vectors; (D2) name←name, amount←quantity via extract_amount, descriptor←note; quantity←value(), units←unit(); "
-        "Number/Range/Text map to the same-named variant with start←start, end←end; names, notes, units and text values pass only through copying/borrowing conversions (no trim/case/format on the way); (D3) deref_* use the same-kind vector; (D4) the GroupedQuantityKey "
+        "Number/Range/Text map to the same-named variant with start←start, end←end; names, notes, units and text values pass only through copying/borrowing conversions (no trim/case/format on the way); the component vectors are element-wise maps (no filter/rev/take), since step items carry core indices; (D3) deref_* use the same-kind vector; (D4) the GroupedQuantityKey "
         "built in each arm of into_group_quantity carries the arm's variant, merge_grouped_quantities looks the bucket up with a clone of the incoming key "
         "and adds incoming into stored per field, combine_ingredients passes 0..len, expand_with_ingredients folds each listed index once. "
         "No amounts are computed.")
@@ -258,6 +258,13 @@ def d1_kinds(chk, F):
             for bb, tt in calls_to(ff, "Iterator::collect"):
                 if ff.local_name(tt["dest"]["l"]) == fld:
                     init = full(arg_expr(ff, tt, 0))
+                    # item references are core indices: the FFI vector has one element per core element, in the same order
+                    adaptors = sorted({n[1].rsplit("::", 1)[-1] for n in walk(arg_expr(ff, tt, 0)) if n[0] == "call" and
+                                       re.search(r"(Iterator|IntoIterator|DoubleEndedIterator)(<[^>]*>)?>?::\w+$|<impl \[T\]>::iter$|Vec::<T, A>::(iter|drain)$", n[1])})
+                    extra = [a for a in adaptors if a not in ("iter", "into_iter", "map", "cloned", "copied", "by_ref", "enumerate", "inspect")]
+                    chk.expect(not extra, "C19.D1-kinds", f"CooklangRecipe.{fld}|one-to-one", f"{ff.file}:{tt.get('line')}",
+                               f"CooklangRecipe.{fld} is built with {extra}: elements can be dropped, added or reordered, so the core indices carried by step items "
+                               "no longer denote the same component", sample=f"CooklangRecipe.{fld}: element-wise map ({adaptors})")
             ok = src == fld and init is not None and f"(*recipe).{fld}" in init and not any(f"(*recipe).{o}" in init for o in ("ingredients", "cookware", "timers") if o != fld)
             chk.expect(ok, "C19.D1-kinds", f"CooklangRecipe.{fld}", f"{ff.file}:{s.get('line')}",
                        f"CooklangRecipe.{fld} must be a map over recipe.{fld}; it is `{src}` = {str(init)[:80]}", sample=f"CooklangRecipe.{fld} ← recipe.{fld}.iter().map(into)")
